@@ -246,6 +246,9 @@ func fsSignature(l M) string {
 	if l["ev"] == "crash" {
 		return fmt.Sprintf("crash|%v/%v>%v/%v", l["last"].(M)["kind"], l["last"].(M)["fclass"], l["next"].(M)["kind"], l["next"].(M)["fclass"])
 	}
+	if l["ev"] == "retry" {
+		return fmt.Sprintf("retry|%v/%v>%v/%v", l["last"].(M)["kind"], l["last"].(M)["fclass"], l["next"].(M)["kind"], l["next"].(M)["fclass"])
+	}
 	if f, ok := l["fault"].(M); ok {
 		return fmt.Sprintf("fault|%v/%v/%v", f["kind"], f["fclass"], f["errno"])
 	}
